@@ -625,7 +625,7 @@ def to_model(data_file: typing.IO, _config = None, progress_callback=lambda _: N
           state = _State.LOOKING
           continue
 
-        subtitle_text = subtitle_text.strip('\r\n').replace(r"\n\r", "\n")
+        subtitle_text = subtitle_text.strip('\r\n').replace("\r\n", "\n")
 
         _parse_cue_text(subtitle_text, current_p, line_index)
 
